@@ -11,6 +11,7 @@ from ..impl import pipeline_cases as G
 from ..translate import c01 as tr
 
 PROPERTY = "C02"
+CASE_TIMEOUT = 300  # s of wall clock per case in pool workers (runner watchdog): a case that spins forever is a verdict, not exit 2
 THEOREM_MODULE = "NemoVerif.Theorems.C02"
 METHOD = "C02.conv"
 RULE = ("case as in C01; 2-5 turns; emphasis on output-rail verdicts (reject / rewrite / raise) in any turn, every later turn is checked again. "
